@@ -26,7 +26,7 @@ THOROUGH_ONLY = (
     "urwid/widget/columns.py:Columns.column_widths",
 )
 SHARDS.update({
-    "urwid/widget/columns.py:Columns.column_widths": (16, 8),
+    "urwid/widget/columns.py:Columns.column_widths": (16, 12),
     "urwid/vterm.py:TermCanvas.resize": (10, 6),
     "urwid/vterm.py:TermCanvas.remove_lines": (4, 4),
     "urwid/vterm.py:TermCanvas.insert_lines": (4, 4),
